@@ -68,10 +68,10 @@ def check_constructible(ctx):
 
 # ------------------------------------------------------------------ layer-wise semantics
 
-def check_layers(ctx, env0, label, idx):
+def check_layers(ctx, env0, label, idx, kinds=None, depth=None):
     rng = ctx.rng
-    depth = int(rng.integers(1, 5))
-    env, desc, names, skipped, layers = build_stack(rng, env0, depth)
+    depth = int(rng.integers(1, 5)) if depth is None else depth
+    env, desc, names, skipped, layers = build_stack(rng, env0, depth, kinds=kinds)
     for s in skipped:
         ctx.count("wrapper-not-constructible:" + s)
     if not desc:
@@ -560,6 +560,13 @@ def run(ctx):
     for i in range(ctx.budget(10, 30)):
         box = bool(ctx.rng.random() < 0.5)
         check_layers(ctx, random_tabular(ctx.rng, box=box, masks=not box), "tabular", i)
+        ctx.gc()
+    # every action-transforming layer at least once per run over a bounded-action finite MDP whose info and reward
+    # depend on the action (random stacks may happen to contain none): alone and under / over a time limit
+    for i, kinds in enumerate([["RescaleAction"], ["TransformAction"], ["ClipAction"], ["RescaleAction", "TimeLimit"],
+                               ["TransformAction", "ClipReward"]]):
+        check_layers(ctx, random_tabular(ctx.rng, box=True), "tabular-box[action-layers]", 500 + i, kinds=kinds,
+                     depth=2 * len(kinds))
         ctx.gc()
     for i in range(ctx.budget(5, 12)):
         cls = classic[i % len(classic)]
